@@ -72,6 +72,12 @@ func (r *Result) write(path string) {
 	if r.Violations == nil {
 		r.Violations = []Violation{}
 	}
+	setupMu.Lock()
+	if len(setupNotes) > 0 {
+		r.Notes = append(r.Notes, setupNotes...)
+		r.countLocked("setup_retries", len(setupNotes))
+	}
+	setupMu.Unlock()
 	b, _ := json.MarshalIndent(r, "", " ")
 	if err := os.WriteFile(path, b, 0o644); err != nil {
 		fmt.Fprintln(os.Stderr, "cannot write result:", err)
